@@ -923,6 +923,78 @@ func (e *SpecEnv) evalCall(x *SX) (*SV, error) {
 				return nil, err
 			}
 			return &SV{V: e.refKey(v), T: ghostType{IntSort}}, nil
+		case "le16", "le32", "le64":
+			// leNN(s, off): the little-endian unsigned integer stored in s[off : off+NN/8]
+			if len(args) != 2 {
+				return nil, fmt.Errorf("%s(slice, offset)", fn.Name)
+			}
+			sv, err := e.eval(args[0])
+			if err != nil {
+				return nil, err
+			}
+			ov, err := e.eval(args[1])
+			if err != nil {
+				return nil, err
+			}
+			sl, ok := e.value(sv).(*SliceV)
+			if !ok {
+				return nil, fmt.Errorf("%s needs a byte slice", fn.Name)
+			}
+			off := intOf(e.value(e.coerce(ov, types.Typ[types.Int])).(*Term))
+			nb := map[string]int{"le16": 2, "le32": 4, "le64": 8}[fn.Name]
+			st := e.stateOf(sv)
+			_, h := e.vc.byteContentIn(st)
+			c := Select(h, sl.Arr)
+			v := leValue(func(k int) *Term { return Select(c, Add(Add(sl.Off, off), IntC(int64(k)))) }, nb)
+			rt := map[string]types.Type{"le16": types.Typ[types.Uint16], "le32": types.Typ[types.Uint32], "le64": types.Typ[types.Uint64]}[fn.Name]
+			return &SV{V: v, T: rt}, nil
+		case "macMatches":
+			// macMatches("sha256", key, data, sig): sig holds exactly HMAC-alg(key, data); data must have constant length
+			if len(args) != 4 || args[0].K != "str" {
+				return nil, fmt.Errorf("macMatches(\"alg\", key, data, sig)")
+			}
+			var sls [3]*SliceV
+			var sts [3]*State
+			for i := 0; i < 3; i++ {
+				v, err := e.eval(args[i+1])
+				if err != nil {
+					return nil, err
+				}
+				sl, ok := e.value(v).(*SliceV)
+				if !ok {
+					return nil, fmt.Errorf("macMatches needs byte slices")
+				}
+				sls[i], sts[i] = sl, e.stateOf(v)
+			}
+			size := map[string]int{"sha256": 32, "md5": 16, "sha1": 20}[args[0].Str]
+			if size == 0 || !sls[1].Len.IsConst || !sls[1].Len.Int.IsInt64() || sls[1].Len.Int.Int64() > 256 {
+				return nil, fmt.Errorf("macMatches: unknown algorithm or data of non-constant length")
+			}
+			_, hd := e.vc.byteContentIn(sts[1])
+			dc := Select(hd, sls[1].Arr)
+			var msg []*Term
+			for i := int64(0); i < sls[1].Len.Int.Int64(); i++ {
+				msg = append(msg, Select(dc, Add(sls[1].Off, IntC(i))))
+			}
+			mac := macResult(e.vc, sts[0], args[0].Str, sls[0], msg)
+			_, hs := e.vc.byteContentIn(sts[2])
+			sc := Select(hs, sls[2].Arr)
+			conj := []*Term{Eq(sls[2].Len, IntC(int64(size)))}
+			for i := 0; i < size; i++ {
+				conj = append(conj, Eq(Select(sc, Add(sls[2].Off, IntC(int64(i)))), Select(mac, IntC(int64(i)))))
+			}
+			return &SV{V: And(conj...), T: types.Typ[types.Bool]}, nil
+		case "now":
+			// now(): the ghost clock (nanoseconds), i.e. the value of the latest time.Now() in the evaluation state
+			ki := e.vc.reg.get("ghost:clock", 0, IntSort, nil)
+			return &SV{V: e.st.heapVar(ki), T: types.Typ[types.Int]}, nil
+		case "unixNanos":
+			v, err := e.eval(args[0])
+			if err != nil {
+				return nil, err
+			}
+			sec := intOf(e.value(v).(*Term))
+			return &SV{V: Add(Mul(sec, IntC(1000000000)), IntBig(unixEpochNanos)), T: types.Typ[types.Int]}, nil
 		case "last":
 			// last(ch): the value most recently placed on channel ch (ghost)
 			v, err := e.eval(args[0])
